@@ -1,11 +1,255 @@
 import StorageModel.Driver.Common
+import StorageModel.C10.Listener
+import StorageModel.C10.TreeCursor
+import StorageModel.C10.Dump
+import StorageModel.C10.Pipeline
 /- model driver for C10: `run spec` reads case lines on stdin and prints one output line per case
    (spec = false: the engine model's output; spec = true: the spec's verdict). -/
 namespace StorageModel.Driver.C10
-open StorageModel.Driver
+open StorageModel StorageModel.Driver StorageModel.C10
 
-def step (_line : String) : String := "not-implemented"
-def specStep (_line : String) : String := "not-implemented"
+def decodeText (w : String) : Option (List Char) :=
+  match Bytes.ofHex w with
+  | some b => (String.fromUTF8? (ByteArray.mk b.toArray)).map (·.toList)
+  | none => none
+
+def encodeText (s : List Char) : String := Bytes.toWire (Bytes.ofString (String.ofList s))
+
+def tokString (r : Except Nat (List Token)) (partialToks : List Token) : String :=
+  let nums (ts : List Token) := if ts.isEmpty then "-" else ".".intercalate (ts.map fun t => toString t.kind.num)
+  match r with
+  | .ok ts => nums ts
+  | .error e => nums partialToks ++ "!" ++ toString e
+
+/-- tokens recognised before the first error (for the comparison with the real lexer) -/
+def lexPrefix : Nat → List Char → List Token
+  | 0, _ => []
+  | _ + 1, [] => []
+  | n + 1, s@(_ :: _) =>
+    match pick s with
+    | none => []
+    | some (k, r) => ⟨k, s.take (s.length - r.length)⟩ :: lexPrefix n r
+
+def evName : Ev → String
+  | .term k text => s!"T{k.num}.{encodeText text}"
+  | .eSA => "eSA" | .eNA => "eNA" | .eDA => "eDA" | .xSA => "xSA" | .xNA => "xNA" | .xDA => "xDA"
+  | .xOr => "xOr" | .xAnd => "xAnd" | .xIn => "xIn" | .xBtw => "xBtw" | .xBin => "xBin" | .xSF => "xSF"
+  | .eSB => "eSB" | .xSB => "xSB" | .xSFd => "xSFd" | .xSk => "xSk" | .xLi => "xLi" | .xQ => "xQ"
+  | .xSQ => "xSQ" | .xNot => "xNot" | .xGrp => "xGrp"
+
+def evString (evs : List Ev) : String := if evs.isEmpty then "-" else ",".intercalate (evs.map evName)
+
+def tkOfNum (n : Nat) : Option TK := TK.all[n - 1]?
+
+def parseEv (s : String) : Option Ev :=
+  match s with
+  | "eSA" => some .eSA | "eNA" => some .eNA | "eDA" => some .eDA | "xSA" => some .xSA | "xNA" => some .xNA
+  | "xDA" => some .xDA | "xOr" => some .xOr | "xAnd" => some .xAnd | "xIn" => some .xIn | "xBtw" => some .xBtw
+  | "xBin" => some .xBin | "xSF" => some .xSF | "eSB" => some .eSB | "xSB" => some .xSB | "xSFd" => some .xSFd
+  | "xSk" => some .xSk | "xLi" => some .xLi | "xQ" => some .xQ | "xSQ" => some .xSQ | "xNot" => some .xNot
+  | "xGrp" => some .xGrp
+  | _ =>
+    if s.startsWith "T" then
+      match (s.drop 1).toString.splitOn "." with
+      | [n, txt] =>
+        match n.toNat?, decodeText txt with
+        | some k, some t => (tkOfNum k).map fun tk => Ev.term tk t
+        | _, _ => none
+      | _ => none
+    else none
+
+def parseEvs (s : String) : Option (List Ev) :=
+  if s == "-" then some [] else (s.splitOn ",").mapM parseEv
+
+def b01 (b : Bool) : String := if b then "1" else "0"
+
+/-- front end shared by L and Q cases: returns the output prefix and the untyped query if any -/
+def front (text : List Char) : String × Option (Outcome U) :=
+  let lx := lex text
+  let tok := tokString lx (lexPrefix (text.length + 1) text)
+  match lx with
+  | .error _ => (s!"tok={tok} acc=0 ev=? le=?", none)
+  | .ok ts =>
+    match parseStart ts with
+    | none => (s!"tok={tok} acc=0 ev=? le=?", none)
+    | some tree =>
+      let evs := tree.events
+      let res := listen evs
+      let le := match run .init evs with
+        | .ok st => b01 st.err
+        | .err _ => "1"
+        | .panic _ => "panic"
+      (s!"tok={tok} acc=1 ev={evString evs} le={le}", some res)
+
+def stepE (evs : String) : String :=
+  match parseEvs evs with
+  | none => "bad-events"
+  | some es =>
+    let c := b01 (clean false es)
+    match run .init es with
+    | .ok st => s!"le={b01 st.err} clean={c}"
+    | .err _ => s!"le=1 clean={c}"
+    | .panic site => s!"panic clean={c} site={site}"
+
+/-! ### Q cases: schema, rows -/
+
+def nodeTypeOfCode (c : Char) : NodeType :=
+  match c with
+  | 's' => .string | 'i' => .int64 | 'f' => .float64 | 'b' => .bool | 'd' => .datetime | 'a' => .anyType
+  | _ => .other
+
+structure Entry where
+  name : Name
+  type : NodeType
+  isSet : Bool
+  sub : Option Nat
+
+def parseEntry (s : String) : Option Entry :=
+  match s.splitOn ":" with
+  | [] => none
+  | parts =>
+    let spec := parts.getLast!.toList
+    let name := (":".intercalate parts.dropLast).toList
+    match spec with
+    | [] => none
+    | c :: rest =>
+      let (isSet, rest1) := match rest with | '*' :: r => (true, r) | r => (false, r)
+      let sub := match rest1 with | '@' :: r => (String.ofList r).toNat? | _ => none
+      some ⟨name, nodeTypeOfCode c, isSet, sub⟩
+
+def parseTables (s : String) : List (List Entry) :=
+  (s.splitOn "/").map fun t => if t == "" || t == "-" then [] else (t.splitOn ",").filterMap parseEntry
+
+/-- the symbol table `i`, unfolded `depth` levels -/
+def mkTab (tables : List (List Entry)) : Nat → Nat → SymTab
+  | 0, i =>
+    let es := tables.getD i []
+    .mk (fun n => (es.find? (·.name == n)).map (·.type)) (fun n => (es.find? (·.name == n)).map (·.isSet)) (fun _ => none)
+  | d + 1, i =>
+    let es := tables.getD i []
+    .mk (fun n => (es.find? (·.name == n)).map (·.type)) (fun n => (es.find? (·.name == n)).map (·.isSet))
+      (fun n => match es.find? (·.name == n) with
+        | some e => match e.sub with
+          | some k => if k < tables.length then some (mkTab tables d k) else none
+          | none => none
+        | none => none)
+
+def parseFV (s : String) : FV :=
+  match s.toList with
+  | 'S' :: r => match decodeText (String.ofList r) with | some t => .str t | none => .null
+  | 'I' :: r => match (String.ofList r).toInt? with | some i => .int i | none => .null
+  | 'F' :: r => match classifyNumber r with | .int i => .flt (i : Rat) | .float q => .flt q | .bad => .null
+  | 'B' :: r => .bool (r == ['1'])
+  | 'D' :: r => match (String.ofList r).toInt? with | some i => .dt i | none => .null
+  | _ => .null
+
+inductive FieldSpec where
+  | scalar (n : Name) (v : FV)
+  | set (n : Name) (vs : List FV)
+  | kids (n : Name) (ix : List Nat)
+
+def parseField (s : String) : Option FieldSpec :=
+  match s.splitOn "=" with
+  | name :: rest =>
+    let v := "=".intercalate rest
+    if v.startsWith "[" then
+      let inner := ((v.drop 1).dropEnd 1).toString
+      some (.set name.toList (if inner == "" then [] else (inner.splitOn "|").map parseFV))
+    else if v.startsWith "{" then
+      let inner := ((v.drop 1).dropEnd 1).toString
+      some (.kids name.toList (if inner == "" then [] else (inner.splitOn "|").filterMap (·.toNat?)))
+    else some (.scalar name.toList (parseFV v))
+  | [] => none
+
+def parseRowSpecs (s : String) : List (List FieldSpec) :=
+  if s == "-" then [] else (s.splitOn ";").map fun r => if r == "_" then [] else (r.splitOn "&").filterMap parseField
+
+/-- row `i` of the table (children have larger indices, so `fuel` bounds the nesting) -/
+def buildRow (specs : List (List FieldSpec)) : Nat → Nat → Row
+  | 0, _ => .mk [] [] []
+  | fuel + 1, i =>
+    let fs := specs.getD i []
+    .mk (fs.filterMap fun | .scalar n v => some (n, v) | _ => none)
+        (fs.filterMap fun | .set n vs => some (n, vs) | _ => none)
+        (fs.filterMap fun
+          | .kids n ix => some (n, (ix.filter (fun k => k > i && k < specs.length)).map (buildRow specs fuel))
+          | _ => none)
+
+def evalRows (seek : Bool) (t : T) (rows : List Row) : String :=
+  if rows.isEmpty then "-" else
+  String.join (rows.map fun r => match evalBool seek ⟨r, []⟩ t with
+    | .ok b => b01 b
+    | .err _ => "E"
+    | .panic _ => "P")
+
+def traceString (t : T) : String :=
+  let tr := t.trace
+  if tr.isEmpty then "-" else ",".intercalate tr
+
+def stepQ (spec : Bool) (schema seek rowsS w : String) : String :=
+  match decodeText w with
+  | none => "bad-case"
+  | some text =>
+    let tables := parseTables schema
+    let st := mkTab tables 8 0
+    let specs := parseRowSpecs rowsS
+    let rows := (List.range specs.length).map (buildRow specs 4)
+    if spec then s!"acc={b01 (accepts text)} nopanic" else
+    let (pre, _) := front text
+    -- the function the theorems are about
+    match parseModel st text with
+    | .ok t => s!"{pre} res=ok typed={traceString t} eval={evalRows (seek == "1") t rows}"
+    | .err e =>
+      let kind := if e == "syntax" then "syn" else if e == "listener" then "lerr"
+        else if e == "symbol validation" then "verr" else "terr"
+      s!"{pre} res={kind} typed=- eval=-"
+    | .panic site => s!"{pre} res=panic:{site.replace " " "_"} typed=- eval=-"
+
+def treeLine (vals : List Bytes) (after : List Bool) (size : Nat) : String :=
+  let vs := if vals.isEmpty then "-" else ".".intercalate (vals.map Bytes.toWire)
+  let as := if after.isEmpty then "-" else bits after
+  s!"vals={vs} after={as} size={size}"
+
+def stepT (spec : Bool) (fwd extra : String) (vals : List String) : String :=
+  match extra.toNat?, vals.mapM Bytes.ofHex with
+  | some n, some vs =>
+    let lt : Bytes → Bytes → Bool := if fwd == "1" then bytesLt else fun a b => bytesLt b a
+    if spec then
+      let sorted := vs.foldl (fun acc v => insertSorted lt v acc) []
+      treeLine sorted (List.replicate n false) sorted.length
+    else
+      let t := vs.foldl (fun acc v => bstInsert lt v acc) LTree.nil
+      match tcScript t n with
+      | .ok (es, bs) => treeLine es bs t.size
+      | .err e => "err " ++ e
+      | .panic site => "panic " ++ site
+  | _, _ => "bad-case"
+
+def step (line : String) : String :=
+  match splitSp line with
+  | "T" :: fwd :: extra :: vals => stepT false fwd extra vals
+  | ["L", w] =>
+    match decodeText w with
+    | some text => (front text).1
+    | none => "bad-case"
+  | ["E", evs] => stepE evs
+  | ["Q", schema, seek, rows, w] => stepQ false schema seek rows w
+  | ["B", _, _] => "nopanic"
+  | _ => "bad-case"
+
+/-- the spec: a string is accepted iff it is a sentence (reference lexer + recogniser); nothing
+    may panic -/
+def specStep (line : String) : String :=
+  match splitSp line with
+  | "T" :: fwd :: extra :: vals => stepT true fwd extra vals
+  | ["L", w] =>
+    match decodeText w with
+    | some text => s!"acc={b01 (accepts text)}"
+    | none => "bad-case"
+  | ["E", _] => "nopanic"
+  | ["Q", schema, seek, rows, w] => stepQ true schema seek rows w
+  | ["B", _, _] => "nopanic"
+  | _ => "bad-case"
 
 def run (spec : Bool) : IO Unit := forEachLine (if spec then specStep else step)
 
